@@ -22,6 +22,9 @@ INSTR = 'pytezos.michelson.instructions'
 BASE_INSTR = f'{INSTR}.base.MichelsonInstruction'
 MT = f'{T}.base.MichelsonType'
 STRUCTURAL = ('pair', 'or', 'option', 'list', 'lambda')
+# methods of the structural classes that stay opaque at level 1 (conversions and comparisons: other properties)
+OPAQUE_STRUCT = {'to_micheline_value', 'from_micheline_value', 'to_python_object', 'from_python_object', 'to_literal', 'pack', 'unpack', 'forge',
+                 '__lt__', '__eq__', '__hash__', '__repr__', 'generate_pydoc', 'merge_lazy_diff', 'aggregate_lazy_diff', 'attach_context', 'duplicate'}
 
 
 class Body:
@@ -131,6 +134,8 @@ class ExecHooks(TypeTreeHooks):
         if fi.cls is not None and fi.cls.qualname == STACK:
             return True
         if self.opaque_types and m.startswith(T):
+            if fi.cls is not None and fi.cls.name in ('OptionType', 'OrType', 'PairType', 'ListType') and fi.name not in OPAQUE_STRUCT:
+                return True
             return fi.cls is not None and fi.name in ('__int__', '__bool__', '__bytes__', '__len__', '__str__', '__iter__')
         return super().inline(it, fi)
 
@@ -219,6 +224,8 @@ class ExecHooks(TypeTreeHooks):
             n = fi.name
             if n == 'format_stdout':
                 return 'stdout'
+            if n == 'from_comb' and fi.cls is not None and fi.cls.name == 'PairType':
+                return NotImplemented  # the real from_comb is interpreted (create_type is modelled here)
             if n == 'get_entrypoint_type' and fi.cls is None:
                 # the parameter type of another contract: unknown to the context (None) or the type asked for
                 it.event('entrypoint-type', tuple(args[1:]), dict(kwargs))
